@@ -55,7 +55,8 @@ theorem ltLoop_run {lt : α → α → Bool} (hlt : SWO lt) (dflt : α) (stable 
       rw [hs] at hq0
       simp only [Option.map_some, Option.some.injEq] at hq0
       -- feed
-      obtain ⟨W, hW, _⟩ := inv.2.valid
+      obtain ⟨_, hinvI⟩ := inv.2
+      obtain ⟨W, hW, _⟩ := hinvI.valid
       have hsrc := C09.minSource_real hW hms hsl (by unfold invalid; omega)
       obtain ⟨t', hd, hv', inv'⟩ := C09.replace_TInv hlt inv hW (by rw [hsrc]; simpa using hsl) q0.head?
       rw [hsrc, ← List.map_set, ← hxs] at inv'
